@@ -6,6 +6,7 @@
 use std::io::{BufRead, Write};
 mod consts;
 mod prog;
+mod streams;
 mod wire;
 
 pub const W_PANIC: i64 = 99;
@@ -19,6 +20,8 @@ fn run_case(case: &[i64]) -> Vec<i64> {
     let r = std::panic::catch_unwind(std::panic::AssertUnwindSafe(|| match case[0] {
         1 => prog::run_prog_case(&case[1..]),
         2 => consts::run(&case[1..]),
+        3 => streams::run_comb_case(&case[1..]),
+        4 => streams::run_strm_case(&case[1..]),
         _ => vec![W_BAD],
     }));
     match r {
